@@ -175,6 +175,13 @@ def run(prog, rep, tier):
     if obs:
         rep.info("environment failures unwrapped (unreadable-file scenario, outside the property's arbitrary-content quantifier): %s" % sorted(set(obs))[:6])
 
+    # ------------------------------------------------------------ R7.7 (shared instant-preservation lint)
+    import instant
+    R77i = rep.rule("R7.7", "conversions between the window's datetime and the record's tv pair preserve the instant")
+    n_sites = instant.check(prog, rep, R77i, lambda p: ('readers::fixedstructreader' in p or 'data::fixedstruct' in p) and '_tests' not in p, "the -a/-b window applied to utmp/acct records shifts by the filter's own UTC offset")
+    if n_sites < 4:
+        raise CheckerError("R7.7: only %d chrono conversion sites found in scope (expected at least 4)" % n_sites)
+
     return rep.finish(
         "Static necessary-condition check against crashes/hangs from file content: (R7.1) for all strings of all 173 date regexes the converter's "
         "unwraps and month lookup cannot panic; (R7.2) fixed-size record fields are not read with an unbounded C-string scan on worker-reachable "
